@@ -446,3 +446,7 @@ def check(run, replay=None):
         run.require_counter(c_, 1)
     if run.counters.get("rodrigues_convention_active", 0) and run.counters.get("rodrigues_convention_passive", 0):
         run.violation("rodrigues:mixed-convention", "Rodrigues vectors reported in both sign conventions", {})
+
+
+# workloads added in seeding rounds 7-10 (DESIGN.md sections 13.9-13.12)
+LEVEL_TEXT = LEVEL_TEXT + ' Later additions: voxels whose UBI[0,0] is exactly 0.0; TensorMap histories with strain/stress computed in between; pairs of maps built empty and filled afterwards.'
